@@ -244,3 +244,127 @@ Theorem h23_send_nobody_log ds enc frame frame_fin endstream fs fl :
   snd (h2_send ds enc frame frame_fin endstream app_writer [] (mkH23Req fs None fl)) = run_hooks ds (field_hooks HReqHeader fs) /\
   snd (h3_send ds enc app_writer [] (mkH23Req fs None fl)) = run_hooks ds (field_hooks HReqHeader fs).
 Proof. split; reflexivity. Qed.
+
+(* ---------- response side: what each (dumper, writer) receives ---------- *)
+(* HTTP/1.1 header block: a dumper with ResponseHeader on receives, at the writer resolved for
+   that part, the fragments handed over by readLine in order (= the block as received, see
+   h1_recv_header_faithful); every other (dumper, writer) receives nothing of it *)
+Lemma content_header_emissions i o w ds frags :
+  NoDup (map fst ds) -> In (i, o) ds ->
+  content i w (header_emissions ds frags) =
+  if enabled o PRespH && N.eqb w (resolve o PRespH) then concat frags else [].
+Proof.
+  intros ND HI. unfold header_emissions.
+  assert (P : forall p, content i w (flat_map (fun d => raw_emit d (HRespHeader p)) (resp_header_dumpers ds)) =
+                        if enabled o PRespH && N.eqb w (resolve o PRespH) then p else []).
+  { intro p. clear frags. unfold resp_header_dumpers.
+    induction ds as [|[j o'] ds IH]; cbn [filter flat_map map fst In] in *; [contradiction|].
+    inversion ND as [|? ? Hn ND']; subst.
+    destruct HI as [HI|HI].
+    - inversion HI; subst. cbn [snd].
+      assert (Z : content i w (flat_map (fun d => raw_emit d (HRespHeader p))
+                                 (filter (fun d => enabled (snd d) PRespH) ds)) = []).
+      { clear IH ND ND'. induction ds as [|[k o2] ds IH2]; cbn [filter flat_map]; [reflexivity|].
+        cbn [map fst In] in Hn.
+        assert (Nat.eqb i k = false) by (apply Nat.eqb_neq; intro; subst; apply Hn; now left).
+        destruct (enabled (snd (k, o2)) PRespH); cbn [flat_map];
+          [rewrite content_app; cbn [raw_emit]; rewrite content_dump_to, H; cbn [andb app]|];
+          apply IH2; intro; apply Hn; now right. }
+      destruct (enabled o PRespH); cbn [flat_map andb].
+      + rewrite content_app, Z, app_nil_r. cbn [raw_emit]. rewrite content_dump_to, Nat.eqb_refl. reflexivity.
+      + exact Z.
+    - assert (E : Nat.eqb i j = false).
+      { apply Nat.eqb_neq. intro. subst. apply Hn. change j with (fst (j, o)). now apply in_map. }
+      cbn [snd]. destruct (enabled o' PRespH); cbn [flat_map].
+      + rewrite content_app. cbn [raw_emit]. rewrite content_dump_to, E. cbn [andb app]. now apply IH.
+      + now apply IH. }
+  induction frags as [|f frags IH]; cbn [flat_map concat].
+  - now destruct (enabled o PRespH && N.eqb w (resolve o PRespH)).
+  - rewrite content_app, P, IH.
+    destruct (enabled o PRespH && N.eqb w (resolve o PRespH)); [reflexivity|reflexivity].
+Qed.
+
+(* body reads: each delivered slice once, to the response-body writer; CRLF to Output at io.EOF *)
+Definition read_bytes_for (o : options) (w : writer) (x : bytes * rstat) : bytes :=
+  hook_bytes_for o w (HRespBody (fst x)) ++
+  match snd x with REnd => hook_bytes_for o w HRespBodyEOF | _ => [] end.
+
+Lemma content_rtee_log i o w ds b e :
+  NoDup (map fst ds) -> In (i, o) ds ->
+  content i w (rtee_log ds b e) = read_bytes_for o w (b, e).
+Proof.
+  intros ND HI. unfold rtee_log, read_bytes_for. cbn [fst snd].
+  assert (One : forall j o', content i w (if enabled (snd (j, o')) PRespB then read_emit (j, o') b e else []) =
+                             if Nat.eqb i j then hook_bytes_for o' w (HRespBody b) ++
+                                                 match e with REnd => hook_bytes_for o' w HRespBodyEOF | _ => [] end
+                             else []).
+  { intros j o'. cbn [snd]. unfold read_emit, hook_bytes_for. cbn [hook_part].
+    destruct (enabled o' PRespB); cbn [negb].
+    - rewrite content_app. cbn [raw_emit]. rewrite content_dump_to.
+      destruct e; cbn [content]; rewrite ?content_dump_to; destruct (Nat.eqb i j); cbn [andb]; rewrite ?app_nil_r; reflexivity.
+    - destruct (Nat.eqb i j); [destruct e|]; reflexivity. }
+  induction ds as [|[j o'] ds IH]; cbn [flat_map map fst In] in *; [contradiction|].
+  inversion ND as [|? ? Hn ND']; subst. rewrite content_app, One.
+  destruct HI as [HI|HI].
+  - inversion HI; subst. rewrite Nat.eqb_refl.
+    assert (Z : content i w (flat_map (fun d => if enabled (snd d) PRespB then read_emit d b e else []) ds) = []).
+    { clear IH ND ND'. induction ds as [|[k o2] ds IH2]; cbn [flat_map]; [reflexivity|].
+      cbn [map fst In] in Hn. rewrite content_app, One.
+      assert (Nat.eqb i k = false) as -> by (apply Nat.eqb_neq; intro; subst; apply Hn; now left).
+      apply IH2. intro. apply Hn. now right. }
+    now rewrite Z, app_nil_r.
+  - assert (Nat.eqb i j = false) as ->.
+    { apply Nat.eqb_neq. intro. subst. apply Hn. change j with (fst (j, o)). now apply in_map. }
+    now apply IH.
+Qed.
+
+Lemma content_rtrace {St} i o w ds (r : rfn St) s sizes :
+  NoDup (map fst ds) -> In (i, o) ds ->
+  content i w (rtrace r (fun b e => [] ++ rtee_log ds b e) s sizes) =
+  flat_map (read_bytes_for o w) (snd (read_all r s sizes)).
+Proof.
+  intros ND HI. revert s. induction sizes as [|k rest IH]; intro s; cbn [rtrace read_all]; [reflexivity|].
+  destruct (r s k) as [[s' b] e]. cbn [app]. rewrite content_app, (content_rtee_log i o) by assumption.
+  destruct e; cbn [snd flat_map]; rewrite ?app_nil_r; try reflexivity.
+  rewrite IH. destruct (read_all r s' rest) as [s'' l]. reflexivity.
+Qed.
+
+(* h2 / h3 response: per (dumper, writer), the field lines + CRLF, then every delivered slice,
+   then CRLF at EOF - each routed as the options say *)
+Theorem h23_recv_content {St} i o w ds fs (r : rfn St) b0 sizes :
+  NoDup (map fst ds) -> In (i, o) ds ->
+  content i w (snd (h23_recv ds fs r b0 sizes)) =
+  flat_map (hook_bytes_for o w) (field_hooks HRespHeader fs) ++
+  flat_map (read_bytes_for o w) (snd (read_all r b0 sizes)).
+Proof.
+  intros ND HI. unfold h23_recv.
+  pose proof (read_all_log (wrap_reader ds (rlift r)) r _ b0 (h23_resp_header_log ds fs) sizes
+               (rlogged_wrap ds (rlift r) r _ (rlogged_lift r))) as H.
+  destruct (read_all (wrap_reader ds (rlift r)) (b0, h23_resp_header_log ds fs) sizes) as [st reads].
+  cbn [fst snd] in *. rewrite H, content_app, (content_rtrace i o) by assumption.
+  unfold h23_resp_header_log. now rewrite (content_run_hooks i o) by assumption.
+Qed.
+
+(* HTTP/1.1 response: per (dumper, writer), the header block exactly as received (dumped ++ unread
+   = stream by h1_recv_header_faithful), then the body slices and the CRLF at EOF *)
+Theorem h1_recv_content {St} i o w ds n stream (r : rfn St) b0 sizes :
+  NoDup (map fst ds) -> In (i, o) ds -> should_dump ds = true ->
+  let '(lines, e, rest, frags) := read_block read_line_dump n (S (length stream)) stream [] [] in
+  content i w (snd (h1_recv ds n stream r b0 sizes)) =
+  (if enabled o PRespH && N.eqb w (resolve o PRespH) then concat frags else []) ++
+  match e with
+  | BBlank => flat_map (read_bytes_for o w) (snd (read_all r b0 sizes))
+  | _ => []
+  end.
+Proof.
+  intros ND HI SD. unfold h1_recv, h1_recv_gen. rewrite SD.
+  destruct (read_block read_line_dump n (S (length stream)) stream [] []) as [[[lines e] rest] frags].
+  destruct e.
+  - pose proof (read_all_log (wrap_reader ds (rlift r)) r _ b0 (header_emissions ds frags) sizes
+                 (rlogged_wrap ds (rlift r) r _ (rlogged_lift r))) as H.
+    destruct (read_all (wrap_reader ds (rlift r)) (b0, header_emissions ds frags) sizes) as [st reads].
+    cbn [fst snd] in *. rewrite H, content_app, (content_rtrace i o), (content_header_emissions i o) by assumption.
+    reflexivity.
+  - cbn [snd]. rewrite (content_header_emissions i o), app_nil_r by assumption. reflexivity.
+  - cbn [snd]. rewrite (content_header_emissions i o), app_nil_r by assumption. reflexivity.
+Qed.
